@@ -44,6 +44,7 @@ M = [
     ("C10-h1-rename-before-close", "C10", "cmd/thermal-recorder/cptvfilerecorder.go", "		fw.writer.Close()\n\n		finalName, err := renameTempRecording(fw.writer.Name())", "		finalName, err := renameTempRecording(fw.writer.Name())\n		fw.writer.Close()\n"),
     ("C10-h2-record-to-final-name", "C10", "cmd/thermal-recorder/cptvfilerecorder.go", "	return time.Now().Format(\"20060102.150405.000.\" + cptvTempExt)", "	return time.Now().Format(\"20060102.150405.000.cptv\")"),
     ("C10-h3-cleanup-misses-scratch", "C10", "cmd/thermal-recorder/cptvfilerecorder.go", "filepath.Glob(filepath.Join(dir, \"*.\"+cptvTempExt+\"*\"))", "filepath.Glob(filepath.Join(dir, \"*.\"+cptvTempExt))"),
+    ("C10-h4-startup-cleanup-removed", "C10", "cmd/thermal-recorder/main.go", "	log.Println(\"deleting temp files\")\n	if err := deleteTempFiles(conf.OutputDir); err != nil {\n		return err\n	}\n", "	log.Println(\"deleting temp files\")\n"),
     ("C11-h1-header-preview-from-minsecs", "C11", "cmd/thermal-recorder/cptvfilerecorder.go", "		PreviewSecs:  config.Recorder.PreviewSecs,", "		PreviewSecs:  config.Recorder.MinSecs,"),
     ("C11-h2-motion-config-not-loaded", "C11", "cmd/thermal-recorder/main.go", "	conf.LoadMotionConfig(headerInfo.Model())\n", ""),
     ("C11-h3-boson-big-endian", "C11", "cmd/thermal-recorder/boson.go", "binary.LittleEndian.Uint16(raw[i : i+2])", "binary.BigEndian.Uint16(raw[i : i+2])"),
@@ -70,6 +71,7 @@ M = [
     ("C18-h4-rotation-drops-open-file", "C18", "cmd/thermal-writer/main.go", "		case <-changeFile:\n			builder.Close()\n", "		case <-changeFile:\n"),
     ("C19-h1-mark-not-expired", "C19", "motion/frameloop.go", "	if fl.currentIndex == fl.oldest {\n		fl.oldest = NO_OLDEST_SET\n	}\n", ""),
     ("C19-h2-history-wrap-off-by-one", "C19", "motion/frameloop.go", "	copy(fl.orderedFrames[fl.size-nextIndex:], fl.frames[:nextIndex])", "	copy(fl.orderedFrames[fl.size-nextIndex:], fl.frames[:nextIndex-1])"),
+    ("C20-h3-daemon-interval-ten-seconds", "C20", "motion/motionprocessor.go", "const minLogInterval = time.Minute", "const minLogInterval = 10 * time.Second"),
     ("C20-h1-state-updated-on-suppressed", "C20", "loglimiter/loglimiter.go", "	if now.Sub(limiter.previousTime) < limiter.interval && s == limiter.previousEntry {\n		return\n	}", "	if now.Sub(limiter.previousTime) < limiter.interval && s == limiter.previousEntry {\n		limiter.previousTime = now\n		return\n	}"),
     ("C20-h2-le-interval", "C20", "loglimiter/loglimiter.go", "now.Sub(limiter.previousTime) < limiter.interval", "now.Sub(limiter.previousTime) <= limiter.interval"),
 ]
